@@ -265,6 +265,57 @@ def dheSKX (c : DheCtx) (key : Bytes) : Res DheSkx :=
   | .err => .err
   | .panic => .panic
 
+/-! ### the client step that follows an accepted DHE ServerKeyExchange
+
+  `processServerKeyExchange` only establishes `0 < Ys < p`.  `generateClientKeyExchange` then calls
+  `crypto/rand.Int(rand, ka.p)`, which PANICS when its bound is `<= 0`, and `new(big.Int).Exp(·, xOurs, ka.p)` twice
+  (total for every modulus: `Exp` with modulus 0 is plain exponentiation).  So what the code needs is `p > 0`; what the
+  parser guarantees is `p ≥ 2` (`dhe_parser_guarantees_modulus`), which is enough (`dhe_client_step_no_panic`) — but only
+  just: any bound of the form `p - k` handed to `rand.Int` is outside the guarantee. -/
+
+/-- `processServerKeyExchange` of a client with `InsecureSkipVerify`: `verifyParameters` still runs (only a panic in it
+    would surface), its verdict is dropped (`if config.InsecureSkipVerify { return nil }`) -/
+def dheSKXSkipVerify (c : DheCtx) (key : Bytes) : Res (Bytes × Bytes × Bytes) :=
+  match readDH key with
+  | .ok (p, k1) =>
+    match readDH k1 with
+    | .ok (g, k2) =>
+      match readDH k2 with
+      | .ok (ys, sig) =>
+        if natOf ys = 0 ∨ natOf ys ≥ natOf p then .err
+        else
+          match sliceTo key (key.length - sig.length) with
+          | .ok _ =>
+            match verifyParameters c sig with
+            | .panic => .panic
+            | _ => .ok (p, g, ys)
+          | _ => .panic
+      | .err => .err
+      | .panic => .panic
+    | .err => .err
+    | .panic => .panic
+  | .err => .err
+  | .panic => .panic
+
+def dheSKXSkipVerifyMsg (c : DheCtx) (msg : Bytes) : Res (Bytes × Bytes × Bytes) :=
+  match skxUnmarshal msg with
+  | .ok key => dheSKXSkipVerify c key
+  | .err => .err
+  | .panic => .panic
+
+/-- `big.Int.Bytes()`: big-endian, no leading zero, empty for 0 -/
+def bytesOfNat (n : Nat) : Bytes :=
+  if _h : n = 0 then [] else bytesOfNat (n / 256) ++ [UInt8.ofNat (n % 256)]
+decreasing_by omega
+
+/-- `(*dheKeyAgreement).generateClientKeyExchange` with the drawn exponent `x` as an input:
+    (`ckx.ciphertext` = 2-byte length ‖ Yc, pre-master secret).  `.panic` is `rand.Int`'s "argument to Int is <= 0". -/
+def dheGenCKX (p g ys : Bytes) (x : Nat) : Res (Bytes × Bytes) :=
+  if natOf p = 0 then .panic
+  else
+    let yc := bytesOfNat (natOf g ^ x % natOf p)
+    .ok (UInt8.ofNat (yc.length / 256) :: UInt8.ofNat (yc.length % 256) :: yc, bytesOfNat (natOf ys ^ x % natOf p))
+
 /-! ### ClientKeyExchange (server side) -/
 
 /-- `(*rsaKeyAgreement).processClientKeyExchange` up to `priv.Decrypt`: the encrypted pre-master secret -/
